@@ -253,6 +253,8 @@ def forge_transplant(honest, g, h, n, a, b, y, ry, rng):
 class C16:
     LEVEL = "proof"
     CL03 = True
+    @staticmethod
+    def coq_eval_terms(S): return _q().prim_coq_terms(S)
     RULE = ("Boudot range proofs over toy and fixture moduli with bases (g_0, h) of a commitment key: intervals [a, b] with b - a in {1, 2, 3, 2^k, 2^256 - 1, ...} (a >= 0 and a < 0 < b), "
             "x in {a, a+1, mid, b-1, b, random}: prove with the production RNG (draws replayed into the model: proofs equal integer for integer), verify = true; x outside [a, b]: the "
             "honest prover panics or its proof is rejected; other bounds / bases / modulus, +-1 / zero / swap on every integer of the proof, and the transplant forgery (honest square "
@@ -261,6 +263,7 @@ class C16:
     def generate(S, tier):
         P = _p(); Q = _q(); rng = S.rng
         stats = {"proofs": 0, "out_of_range": 0, "field_edits": 0, "transplants": 0, "widths": []}
+        stats["primitive_cases"] = Q.prims_pass(S, tier)
         for suite, fx in Q.suites_for(tier):
             x = Q.make_ctx(S, suite, 1, use_fixture=fx)
             if x is None: continue
@@ -369,6 +372,37 @@ def opening_attacks(S, doc, N, pairs, secrets, v_sig, candidates, what):
                 except ValueError: pass
     return n_checked
 
+def response_vectors(doc, path=()):
+    """every list of integer leaves in a proof document (the per-attribute response vectors s1, s_5, d)"""
+    out = []
+    if isinstance(doc, dict):
+        for k, v in doc.items(): out += response_vectors(v, path + (k,))
+    elif isinstance(doc, list):
+        if doc and all(clj.is_int(x) for x in doc):
+            out.append((path, [int(x["value"], x["radix"]) for x in doc]))
+        else:
+            for i, v in enumerate(doc): out += response_vectors(v, path + (i,))
+    return out
+
+def difference_attack(S, doc, challenges, hidden, what):
+    """linear attack on a response vector: with independent blindings (s_a - s_b) is not a multiple of the challenge; if it is,
+    the quotient is m_a - m_b exactly -- a guessed pair of hidden attributes is confirmed, one known attribute gives the other"""
+    P = _p(); n = 0
+    for path, vec in response_vectors(doc):
+        name = ".".join(str(p) for p in path if p != "CL03")
+        for a in range(len(vec)):
+            for b in range(a + 1, len(vec)):
+                for cname, c in challenges:
+                    if c <= 0: continue
+                    n += 1
+                    d = vec[a] - vec[b]
+                    if d % c == 0:
+                        q = d // c
+                        hit = [(i, j) for (i, mi) in hidden for (j, mj) in hidden if i != j and mi - mj == q]
+                        P.fail(S, "response-difference-reveals-attributes|%s:%s[%d]-[%d]" % (what, name, a, b),
+                               "(s[%d] - s[%d]) / %s = %s: the two responses share their blinding" % (a, b, cname, ("m_%d - m_%d" % hit[0]) if hit else str(q)[:40]), [name])
+    return n
+
 class C17:
     LEVEL = "proof"
     CL03 = True
@@ -394,6 +428,9 @@ class C17:
                         secrets = [("m_%d" % i, msgs[i]) for i in U] + [("r", f["C"][1])]
                         cands = [msgs[U[0]], msgs[U[0]] ^ 1]
                         stats["recomputations"] += opening_attacks(S, f["zk"], N, pairs, secrets, None, cands, "zkpok")
+                        pm = f["zk"]["CL03"]["proof_commited_msgs"]
+                        chal = [("c(multi-secret)", sha_int("".join(str(x.bases[i]) for i in (U if n > 1 else [0])) + str(b) + str(f["C"][0]) + str(clj.get(pm, ("t",)))))]
+                        stats["recomputations"] += difference_attack(S, f["zk"], chal, [(i, msgs[i]) for i in U], "zkpok")
                         stats["proofs"] += 1
                     r = S.run([spokgen_line(x, sig, msgs, U)], expect="ok", label="triv:proof_gen")[0]
                     if r.status == "OK":
@@ -401,6 +438,7 @@ class C17:
                         secrets = [("m_%d" % i, msgs[i]) for i in U] + [("e", sig[0]), ("v", sig[2])] + [("draw_%d" % k, v) for k, (kd, pr, v) in enumerate(dr) if kd == "bits" and pr == [x.P["ln"]]][:6]
                         cands = [msgs[U[0]], msgs[U[0]] ^ 1]
                         stats["recomputations"] += opening_attacks(S, doc, N, pairs, secrets, sig[2], cands, "spok")
+                        stats["recomputations"] += difference_attack(S, doc, [("c(spok)", clj.get(doc["CL03"]["spok"], ("challenge",)))], [(i, msgs[i]) for i in U], "spok")
                         stats["proofs"] += 1
         return stats
 
@@ -440,6 +478,17 @@ class C18:
                     if math.gcd(v, N) != 1: bad.append(nm + " not coprime to N")
                     if Q.jacobi(v, p) != 1 or Q.jacobi(v, q) != 1: bad.append(nm + " is not a quadratic residue")
                 if bad: P.fail(S, "key-structure", "; ".join(bad[:6]), [str(N)])
+                # corner draws of random_qr forced through the replay queue: 0, 1, N-1, the non-trivial square roots of 1, multiples of
+                # p and q; whatever the first draw, the value returned must be a square in (1, N) coprime to N
+                if k < 3:
+                    inv = pow(p, -1, q); root = (1 + p * ((-2 * inv) % q)) % N      # = 1 mod p, = -1 mod q
+                    forced = [0, 1, N - 1, root, N - root, p, 2 * q, N - p, 2, N - 2]
+                    rq = S.run(["Q,%s clrandqr %d" % (str(f).encode().hex(), N) for f in forced], expect="ok", label="random_qr-forced-draw")
+                    for f, r_ in zip(forced, rq):
+                        if r_.status == "OK":
+                            v = r_.z(0)
+                            if not (1 < v < N) or math.gcd(v, N) != 1 or Q.jacobi(v, p) != 1 or Q.jacobi(v, q) != 1:
+                                P.fail(S, "random_qr-corner", "random_qr returned %d after a first draw of %d" % (v, f), [str(N)])
                 # codecs
                 rk = S.run(["clpkcodec %s %s" % (suite, zl([N, b, c]))], expect="ok", label="pk-codec")[0]
                 if rk.status == "OK" and ([rk.z(1), rk.z(2), rk.z(3)] != [N, b, c] or rk.toks[4] != "1"): P.fail(S, "pk-codec", "public key changed by a codec", [str(N)])
@@ -536,6 +585,7 @@ class C19:
                         secrets = [("m_%d" % i, msgs[i]) for i in U] + [("r", f["C"][1])] + ([("r_trusted", f["Ct"][1])] if f["Ct"] else [])
                         secrets += [("randomness_%d" % k, v) for k, (kd, prm, v) in enumerate(f["zk_draws"]) if kd == "bits" and prm == [ln]]
                         q_, r_ = masking_attack(S, f["zk"], chal, secrets, "zkpok"); stats["quotients"] += q_; stats["responses"] += r_; stats["proofs"] += 1
+                        stats["quotients"] += difference_attack(S, f["zk"], chal[:1] + chal[-1:], [(i, msgs[i]) for i in U], "zkpok")
                     r = S.run([spokgen_line(x, sig, msgs, U)], expect="ok", label="triv:proof_gen")[0]
                     if r.status == "OK":
                         doc = r.json(0); dr = parse_draws(r); sp = doc["CL03"]["spok"]
@@ -545,4 +595,5 @@ class C19:
                         secrets = [("m_%d" % i, msgs[i]) for i in U] + [("e", sig[0]), ("s", sig[1]), ("v", sig[2])]
                         secrets += [("randomness_%d" % k, v) for k, (kd, prm, v) in enumerate(dr) if kd == "bits" and prm == [ln]]
                         q_, r_ = masking_attack(S, doc, chal, secrets, "spok"); stats["quotients"] += q_; stats["responses"] += r_; stats["proofs"] += 1
+                        stats["quotients"] += difference_attack(S, doc, chal[:1], [(i, msgs[i]) for i in U], "spok")
         return stats
